@@ -76,7 +76,7 @@ func c13Edits(ctx *Ctx) int {
 	if ctx.Thorough() {
 		return 400000
 	}
-	return 6000
+	return 9000
 }
 
 func genC13(ctx *Ctx, i int) *Input {
@@ -96,7 +96,7 @@ func genC13(ctx *Ctx, i int) *Input {
 		r := rng.New(ctx.Seed, "C13", "edit", i)
 		b = r.Intn(len(bases))
 		n := len(bases[b].Text)
-		kinds := []string{"flip", "flip", "insert", "delete", "dupsector", "dropsector", "swapsector", "flip+truncate", "insert-rune"}
+		kinds := []string{"flip", "flip", "insert", "delete", "dupsector", "dropsector", "swapsector", "flip+truncate", "insert-rune", "rune-at-mark", "rune-at-mark"}
 		c := &Corruption{Kind: rng.Pick(r, kinds), At: r.Intn(n), N: 16}
 		switch c.Kind {
 		case "flip", "insert", "flip+truncate":
@@ -106,6 +106,15 @@ func genC13(ctx *Ctx, i int) *Input {
 			}
 		case "swapsector":
 			c.Arg = r.Intn(n)
+		case "rune-at-mark":
+			// faults placed where the lexer is between two things: right after a directive word, around %% %{ %} and the
+			// braces, colons and bars of the file - an odd blank or an invisible character there is what pasted text brings
+			spots := markSpots(bases[b].Text)
+			c.Kind = "insert-rune-at-mark"
+			if len(spots) > 0 {
+				c.At = spots[r.Intn(len(spots))]
+			}
+			c.Arg = rng.Pick(r, []int{0xA0, 0x3000, 0x0C, 0x85, 0x0B, 0x0D, 0x2000, 0x2028, 0xFEFF, 0x200B, 0x1680, 0, '\t', 0x0663, 0xE9})
 		case "insert-rune":
 			// characters outside ASCII: digits and letters of other scripts, no-break space, an invalid byte, NUL
 			c.Arg = rng.Pick(r, []int{0x0663, 0x0967, 0xFF13, 0xE9, 0x4E2D, 0xA0, 0x2028, 0x1F600, -1, 0})
@@ -129,6 +138,24 @@ func genC13(ctx *Ctx, i int) *Input {
 		in.Scheds = []enga.Schedule{{Seed: uint64(i), Default: "shuffle"}}
 	}
 	return in
+}
+
+// markSpots lists the byte offsets right after each directive word, and right before / after each of % { } : | ; < >.
+func markSpots(t string) []int {
+	var out []int
+	for i := 0; i < len(t); i++ {
+		switch t[i] {
+		case '%':
+			j := i + 1
+			for j < len(t) && (t[j] >= 'a' && t[j] <= 'z') {
+				j++
+			}
+			out = append(out, i, j)
+		case '{', '}', ':', '|', ';', '<', '>':
+			out = append(out, i, i+1)
+		}
+	}
+	return out
 }
 
 // Apply performs the corruption on a text.
@@ -166,7 +193,7 @@ func (c *Corruption) Apply(t string) string {
 		return string(b[:cut])
 	case "insert":
 		return string(b[:at]) + string([]byte{byte(c.Arg)}) + string(b[at:])
-	case "insert-rune":
+	case "insert-rune", "insert-rune-at-mark":
 		ins := string(rune(c.Arg))
 		if c.Arg < 0 {
 			ins = "\xff"
